@@ -31,8 +31,8 @@ import (
 // a live structure whose content must survive whatever the pools hand out
 type live struct {
 	kind  string
-	snap  func() []byte    // current content
-	spans func() [][]byte  // memory it occupies (as far as the API shows it)
+	snap  func() []byte   // current content
+	spans func() [][]byte // memory it occupies (as far as the API shows it)
 }
 
 // probe drains the built-in pools after a phase that used them through the real
